@@ -18,8 +18,8 @@ theorem inv_same_sh_noslot {sh : Sh} {ths : Nat → Th} {t : Nat} {th' : Th}
     (hq : quietPost th') (hslot : ∀ b, th'.act = some b → b.slot = none)
     (hqq : sh.once ≠ .done → quiet th')
     (hr : ∀ r, r ∈ th'.results → resOK sh r) : Inv ⟨sh, upd ths t th'⟩ := by
-  refine ⟨h.nub', ?_, res_upd h.res' hr⟩
-  rcases h.phase' with ⟨h1, h2, h3, h4, hq'⟩ | ⟨r, a, h1, h2, h3, hq'⟩ | ⟨h1, h2, h3, hq', hacct⟩
+  refine ⟨h.nubC, ?_, res_upd h.resC hr⟩
+  rcases h.phaseC with ⟨h1, h2, h3, h4, hq'⟩ | ⟨r, a, h1, h2, h3, hq'⟩ | ⟨h1, h2, h3, hq', hacct⟩
   · exact phase_empty_upd h1 h2 h3 h4 (fun u _ => hq' u) (hqq (by rw [h1]; simp))
   · have hne : r ≠ t := by
       intro e; subst e; exact runner_not_quietPost h2 h3 hq0
@@ -47,7 +47,7 @@ theorem inv_idle {sh sh' : Sh} {ths : Nat → Th} {t : Nat} {th' : Th}
   unfold stepTh at hst
   rw [hact] at hst
   simp only at hst
-  have hres := h.res' t
+  have hres := h.resC t
   cases hc : (ths t).calls with
   | nil => rw [hc] at hst; cases hst
   | cons c rest =>
@@ -66,7 +66,7 @@ theorem inv_idle {sh sh' : Sh} {ths : Nat → Th} {t : Nat} {th' : Th}
       have hg : ∃ r, getStep sh = some (sh, r) ∧ resOK sh r := by
         unfold getStep
         simp only [getBlocks, Bool.false_eq_true, false_and, ↓reduceIte]
-        rcases h.phase' with ⟨h1, _⟩ | ⟨r, a, h1, _⟩ | ⟨h1, ⟨v, h2⟩, _⟩
+        rcases h.phaseC with ⟨h1, _⟩ | ⟨r, a, h1, _⟩ | ⟨h1, ⟨v, h2⟩, _⟩
         · exact ⟨.none, by simp [h1, getArm], trivial⟩
         · exact ⟨.none, by simp [h1, getArm], trivial⟩
         · exact ⟨.ref v, by simp [h1, h2, getArm, Data.read], h1, h2⟩
@@ -98,11 +98,11 @@ theorem inv_onceEnter {sh sh' : Sh} {ths : Nat → Th} {t : Nat} {th' : Th} {a :
   have hs0 : ∀ b, (ths t).act = some b → b.slot = none := fun b hb => by
     rw [hact] at hb; cases hb; exact hregs.2.2
   unfold interp at hst
-  rcases h.phase' with ⟨h1, h2, h3, h4, hq'⟩ | ⟨r, ar, h1, h2, h3, hq'⟩ | ⟨h1, h2, h3, hq', hacct⟩
+  rcases h.phaseC with ⟨h1, h2, h3, h4, hq'⟩ | ⟨r, ar, h1, h2, h3, hq'⟩ | ⟨h1, h2, h3, hq', hacct⟩
   · rw [h1] at hst
     simp only [Option.some.injEq, Prod.mk.injEq] at hst
     obtain ⟨rfl, rfl⟩ := hst
-    refine ⟨h.nub', ?_, res_upd (fun u r hr => resOK_mono (h.res' u r hr) rfl (fun hd => ?_)) (fun r hr => resOK_mono (h.res' t r hr) rfl (fun hd => ?_))⟩
+    refine ⟨h.nubC, ?_, res_upd (fun u r hr => resOK_mono (h.resC u r hr) rfl (fun hd => ?_)) (fun r hr => resOK_mono (h.resC t r hr) rfl (fun hd => ?_))⟩
     · exact phase_run_self (a' := { a with pc := a.pc + 1 }) rfl rfl (hrun h2 h3 h4) (fun u _ => hq' u)
     · rw [h1] at hd; cases hd
     · rw [h1] at hd; cases hd
@@ -110,7 +110,7 @@ theorem inv_onceEnter {sh sh' : Sh} {ths : Nat → Th} {t : Nat} {th' : Th} {a :
   · rw [h1] at hst
     simp only [Option.some.injEq, Prod.mk.injEq] at hst
     obtain ⟨rfl, rfl⟩ := hst
-    refine inv_same_sh_noslot h hq0 hs0 ?_ ?_ (fun hne => absurd h1 hne) (fun r hr => h.res' t r hr)
+    refine inv_same_sh_noslot h hq0 hs0 ?_ ?_ (fun hne => absurd h1 hne) (fun r hr => h.resC t r hr)
     · intro b hb
       simp only [goto, Option.some.injEq] at hb
       subst hb
@@ -134,7 +134,7 @@ theorem inv_pre {sh sh' : Sh} {ths : Nat → Th} {t : Nat} {th' : Th} {a : Act}
     simp only [stepTh, hact, hp, hpc, progOf, initDefault, List.getElem?_cons_zero, interp,
       Option.some.injEq, Prod.mk.injEq] at hst
     obtain ⟨rfl, rfl⟩ := hst
-    refine inv_same_sh_noslot h hq0 hs0 (quiet_quietPost ?_) ?_ (fun _ => ?_) (fun r hr => h.res' t r hr)
+    refine inv_same_sh_noslot h hq0 hs0 (quiet_quietPost ?_) ?_ (fun _ => ?_) (fun r hr => h.resC t r hr)
     · intro b hb; simp only [goto, Option.some.injEq] at hb; subst hb
       simp [preAt, regsNone, hv, htmp]
     · intro b hb; simp only [goto, Option.some.injEq] at hb; subst hb; rfl
@@ -163,8 +163,8 @@ theorem inv_done_keep_slot {sh : Sh} {ths : Nat → Th} {t : Nat} {th' : Th} {a 
     (h : Inv ⟨sh, ths⟩) (hdone : sh.once = .done) (hact : (ths t).act = some a)
     (hact' : th'.act = some a') (hslot : a'.slot = a.slot) (hq : quietPost th')
     (hr : ∀ r, r ∈ th'.results → resOK sh r) : Inv ⟨sh, upd ths t th'⟩ := by
-  refine ⟨h.nub', ?_, res_upd h.res' hr⟩
-  rcases h.phase' with ⟨h1, _⟩ | ⟨r, ar, h1, _⟩ | ⟨h1, h2, h3, hq', hacct⟩
+  refine ⟨h.nubC, ?_, res_upd h.resC hr⟩
+  rcases h.phaseC with ⟨h1, _⟩ | ⟨r, ar, h1, _⟩ | ⟨h1, h2, h3, hq', hacct⟩
   · rw [h1] at hdone; cases hdone
   · rw [h1] at hdone; cases hdone
   · refine phase_done_upd h1 h2 h3 (fun u _ => hq' u) hq ?_
@@ -186,8 +186,8 @@ theorem inv_drop_escaped {sh : Sh} {ths : Nat → Th} {t : Nat} {th' : Th} {a : 
     Inv ⟨{ sh with seedDrops := sh.seedDrops + 1 }, upd ths t th'⟩ := by
   have hm : ∀ r, resOK sh r → resOK { sh with seedDrops := sh.seedDrops + 1 } r := fun r hr =>
     resOK_mono hr rfl (fun hd => ⟨hd, rfl, Nat.le_succ _⟩)
-  refine ⟨h.nub', ?_, res_upd (fun u r hr' => hm r (h.res' u r hr')) (fun r hr' => ?_)⟩
-  · rcases h.phase' with ⟨h1, _⟩ | ⟨r, ar, h1, _⟩ | ⟨h1, h2, h3, hq', hacct⟩
+  refine ⟨h.nubC, ?_, res_upd (fun u r hr' => hm r (h.resC u r hr')) (fun r hr' => ?_)⟩
+  · rcases h.phaseC with ⟨h1, _⟩ | ⟨r, ar, h1, _⟩ | ⟨h1, h2, h3, hq', hacct⟩
     · rw [h1] at hdone; cases hdone
     · rw [h1] at hdone; cases hdone
     · refine phase_done_upd h1 h2 h3 (fun u _ => hq' u) hq ?_
@@ -202,7 +202,7 @@ theorem inv_drop_escaped {sh : Sh} {ths : Nat → Th} {t : Nat} {th' : Th} {a : 
         show sh.seedDrops + 1 + sh.seedLeaks = 1
         omega
   · rcases hr r hr' with hm' | ⟨rfl, hk⟩
-    · exact hm r (h.res' t r hm')
+    · exact hm r (h.resC t r hm')
     · exact ⟨hdone, hk, Nat.le_add_left _ _⟩
 
 /-- steps of a thread past the once (the once is initialised) -/
@@ -214,7 +214,7 @@ theorem inv_post {sh sh' : Sh} {ths : Nat → Th} {t : Nat} {th' : Th} {a : Act}
   have hq0 : quietPost (ths t) := fun b hb => by
     rw [hact] at hb; cases hb; exact Or.inr ⟨hpost, hv, htmp, hsl⟩
   obtain ⟨v, hdata⟩ : ∃ v, sh.data = .value v := by
-    rcases h.phase' with ⟨h1, _⟩ | ⟨r, ar, h1, _⟩ | ⟨_, h2, _⟩
+    rcases h.phaseC with ⟨h1, _⟩ | ⟨r, ar, h1, _⟩ | ⟨_, h2, _⟩
     · rw [h1] at hdone; cases hdone
     · rw [h1] at hdone; cases hdone
     · exact h2
@@ -223,7 +223,7 @@ theorem inv_post {sh sh' : Sh} {ths : Nat → Th} {t : Nat} {th' : Th} {a : Act}
     have htok : (progOf a.path)[a.pc]? = some .onceExit := by rw [hp, hpc]; rfl
     simp only [stepTh, hact, htok, interp, Option.some.injEq, Prod.mk.injEq] at hst
     obtain ⟨rfl, rfl⟩ := hst
-    refine inv_done_keep_slot (a' := { a with pc := a.pc + 1 }) h hdone hact rfl rfl ?_ (fun r hr => h.res' t r hr)
+    refine inv_done_keep_slot (a' := { a with pc := a.pc + 1 }) h hdone hact rfl rfl ?_ (fun r hr => h.resC t r hr)
     intro b hb; simp only [goto, Option.some.injEq] at hb; subst hb
     refine Or.inr ⟨by simp [postAt, hp, hpc], hv, htmp, fun _ => ⟨hp, Or.inr (by simp [hpc])⟩⟩
   · -- dflt 9: dropEscaped
@@ -234,7 +234,7 @@ theorem inv_post {sh sh' : Sh} {ths : Nat → Th} {t : Nat} {th' : Th} {a : Act}
       rw [hslot] at hst
       simp only [Option.some.injEq, Prod.mk.injEq] at hst
       obtain ⟨rfl, rfl⟩ := hst
-      refine inv_same_sh_noslot h hq0 (fun b hb => by rw [hact] at hb; cases hb; exact hslot) ?_ ?_ (fun hne => absurd hdone hne) (fun r hr => h.res' t r hr)
+      refine inv_same_sh_noslot h hq0 (fun b hb => by rw [hact] at hb; cases hb; exact hslot) ?_ ?_ (fun hne => absurd hdone hne) (fun r hr => h.resC t r hr)
       · intro b hb; simp only [goto, Option.some.injEq] at hb; subst hb
         exact Or.inr ⟨by simp [postAt, hp, hpc], hv, htmp, fun hc => absurd rfl hc⟩
       · intro b hb; simp only [goto, Option.some.injEq] at hb; subst hb; rfl
@@ -272,7 +272,7 @@ theorem inv_post {sh sh' : Sh} {ths : Nat → Th} {t : Nat} {th' : Th} {a : Act}
     · intro r hr; simp only [finish, List.mem_cons] at hr
       rcases hr with rfl | hr
       · exact ⟨hdone, hdata⟩
-      · exact h.res' t r hr
+      · exact h.resC t r hr
   · -- noDrop 5: onceExit
     have hslot : a.slot = none := by
       apply Decidable.byContradiction; intro hc
@@ -280,7 +280,7 @@ theorem inv_post {sh sh' : Sh} {ths : Nat → Th} {t : Nat} {th' : Th} {a : Act}
     have htok : (progOf a.path)[a.pc]? = some .onceExit := by rw [hp, hpc]; rfl
     simp only [stepTh, hact, htok, interp, Option.some.injEq, Prod.mk.injEq] at hst
     obtain ⟨rfl, rfl⟩ := hst
-    refine inv_same_sh_noslot h hq0 (fun b hb => by rw [hact] at hb; cases hb; exact hslot) ?_ ?_ (fun hne => absurd hdone hne) (fun r hr => h.res' t r hr)
+    refine inv_same_sh_noslot h hq0 (fun b hb => by rw [hact] at hb; cases hb; exact hslot) ?_ ?_ (fun hne => absurd hdone hne) (fun r hr => h.resC t r hr)
     · intro b hb; simp only [goto, Option.some.injEq] at hb; subst hb
       exact Or.inr ⟨by simp [postAt, hp, hpc], hv, htmp, fun hc => absurd hslot hc⟩
     · intro b hb; simp only [goto, Option.some.injEq] at hb; subst hb; exact hslot
@@ -297,13 +297,13 @@ theorem inv_post {sh sh' : Sh} {ths : Nat → Th} {t : Nat} {th' : Th} {a : Act}
     · intro r hr; simp only [finish, List.mem_cons] at hr
       rcases hr with rfl | hr
       · exact ⟨hdone, hdata⟩
-      · exact h.res' t r hr
+      · exact h.resC t r hr
 
 
 theorem running_phase {sh : Sh} {ths : Nat → Th} {t : Nat} (h : Inv ⟨sh, ths⟩)
     (hrun : sh.once = .running t) :
     ∃ a, (ths t).act = some a ∧ runnerOK sh a ∧ ∀ u, u ≠ t → quiet (ths u) := by
-  rcases h.phase' with ⟨h1, _⟩ | ⟨r, a, h1, h2, h3, hq⟩ | ⟨h1, _⟩
+  rcases h.phaseC with ⟨h1, _⟩ | ⟨r, a, h1, h2, h3, hq⟩ | ⟨h1, _⟩
   · rw [h1] at hrun; cases hrun
   · rw [h1] at hrun; cases hrun; exact ⟨a, h2, h3, hq⟩
   · rw [h1] at hrun; cases hrun
@@ -320,8 +320,8 @@ theorem inv_runner_stay {sh sh' : Sh} {ths : Nat → Th} {t : Nat} {th' : Th} {a
     (hok : runnerOK sh' a') (hres : th'.results = (ths t).results) : Inv ⟨sh', upd ths t th'⟩ := by
   obtain ⟨a, _, _, hq⟩ := running_phase h hrun
   have hnd : sh.once ≠ .done := by rw [hrun]; simp
-  refine ⟨hub, phase_run_self hrun' hact' hok hq, res_upd (fun u r hr => res_not_done (h.res' u r hr) hnd hk) ?_⟩
-  intro r hr; rw [hres] at hr; exact res_not_done (h.res' t r hr) hnd hk
+  refine ⟨hub, phase_run_self hrun' hact' hok hq, res_upd (fun u r hr => res_not_done (h.resC u r hr) hnd hk) ?_⟩
+  intro r hr; rw [hres] at hr; exact res_not_done (h.resC t r hr) hnd hk
 
 theorem inv_runner_fail {sh sh' : Sh} {ths : Nat → Th} {t : Nat} {r : Res}
     (h : Inv ⟨sh, ths⟩) (hrun : sh.once = .running t) (h1 : sh'.once = .empty)
@@ -330,13 +330,13 @@ theorem inv_runner_fail {sh sh' : Sh} {ths : Nat → Th} {t : Nat} {r : Res}
     Inv ⟨sh', upd ths t (finish (ths t) r)⟩ := by
   obtain ⟨a, _, _, hq⟩ := running_phase h hrun
   have hnd : sh.once ≠ .done := by rw [hrun]; simp
-  refine ⟨hub, phase_empty_upd h1 h2 h3 h4 hq ?_, res_upd (fun u r hr => res_not_done (h.res' u r hr) hnd hk) ?_⟩
+  refine ⟨hub, phase_empty_upd h1 h2 h3 h4 hq ?_, res_upd (fun u r hr => res_not_done (h.resC u r hr) hnd hk) ?_⟩
   · intro b hb; simp [finish] at hb
   · intro r' hr'
     simp only [finish, List.mem_cons] at hr'
     rcases hr' with rfl | hr'
     · exact hr
-    · exact res_not_done (h.res' t r' hr') hnd hk
+    · exact res_not_done (h.resC t r' hr') hnd hk
 
 /-- the user's initialiser runs: `Ok` moves on with the value in hand, `Err` / panic empty the once -/
 theorem inv_callF {sh sh' : Sh} {ths : Nat → Th} {t : Nat} {th' : Th} {a : Act}
@@ -354,18 +354,18 @@ theorem inv_callF {sh sh' : Sh} {ths : Nat → Th} {t : Nat} {th' : Th} {a : Act
     rw [hkind] at hst
     simp only [Option.some.injEq, Prod.mk.injEq] at hst
     obtain ⟨rfl, rfl⟩ := hst
-    refine inv_runner_stay (a' := { a with val := some (c + a.out.delta), pc := a.pc + 1 }) h hrun hrun rfl h.nub' rfl ?_ rfl
+    refine inv_runner_stay (a' := { a with val := some (c + a.out.delta), pc := a.pc + 1 }) h hrun hrun rfl h.nubC rfl ?_ rfl
     exact hnext _ _ ⟨_, rfl⟩ (by simp [hin]) hl
   | err =>
     rw [hkind] at hst
     simp only [abort, hrun, ↓reduceIte, Option.some.injEq, Prod.mk.injEq] at hst
     obtain ⟨rfl, rfl⟩ := hst
-    exact inv_runner_fail h hrun rfl ⟨_, rfl⟩ hin hl rfl h.nub' trivial
+    exact inv_runner_fail h hrun rfl ⟨_, rfl⟩ hin hl rfl h.nubC trivial
   | panic =>
     rw [hkind] at hst
     simp only [abort, hrun, ↓reduceIte, Option.some.injEq, Prod.mk.injEq] at hst
     obtain ⟨rfl, rfl⟩ := hst
-    exact inv_runner_fail h hrun rfl ⟨_, rfl⟩ hin hl rfl h.nub' trivial
+    exact inv_runner_fail h hrun rfl ⟨_, rfl⟩ hin hl rfl h.nubC trivial
 
 
 /-- `Ok(())` leaves the closure: the once becomes initialised -/
@@ -384,7 +384,7 @@ theorem inv_closureOk {sh sh' : Sh} {ths : Nat → Th} {t : Nat} {th' : Th} {a :
   obtain ⟨rfl, rfl⟩ := hst
   have hothers : ∀ u, u ≠ t → ∀ b, (ths u).act = some b → b.slot = none :=
     fun u hu b hb => (hq u hu b hb).2.2.2
-  refine ⟨h.nub', ?_, res_upd (fun u r hr => res_not_done (h.res' u r hr) hnd rfl) (fun r hr => res_not_done (h.res' t r hr) hnd rfl)⟩
+  refine ⟨h.nubC, ?_, res_upd (fun u r hr => res_not_done (h.resC u r hr) hnd rfl) (fun r hr => res_not_done (h.resC t r hr) hnd rfl)⟩
   refine phase_done_upd rfl hdata hin (fun u hu => quiet_quietPost (hq u hu)) ?_ ?_
   · intro b hb; simp only [goto, Option.some.injEq] at hb; subst hb
     exact Or.inr ⟨hpost, hv, htmp, hsl⟩
@@ -410,7 +410,7 @@ theorem inv_runner {sh sh' : Sh} {ths : Nat → Th} {t : Nat} {th' : Th} {a : Ac
       have := hstep .borrow (by rw [hp, hpc]; rfl)
       simp only [interp, Option.some.injEq, Prod.mk.injEq] at this
       obtain ⟨rfl, rfl⟩ := this
-      refine inv_runner_stay (a' := { a with pc := a.pc + 1 }) h hrun hrun rfl h.nub' rfl ?_ rfl
+      refine inv_runner_stay (a' := { a with pc := a.pc + 1 }) h hrun hrun rfl h.nubC rfl ?_ rfl
       exact Or.inl ⟨hp, Or.inr (by simp [hpc]), ⟨hv, htmp, hslot⟩, hd, hin, hl⟩
     · -- dflt 3: callF
       refine inv_callF h hrun hd hin hl ?_ (hstep .callF (by rw [hp, hpc]; rfl))
@@ -421,7 +421,7 @@ theorem inv_runner {sh sh' : Sh} {ths : Nat → Th} {t : Nat} {th' : Th} {a : Ac
       have := hstep .mkState (by rw [hp, hpc]; rfl)
       simp only [interp, Option.some.injEq, Prod.mk.injEq] at this
       obtain ⟨rfl, rfl⟩ := this
-      refine inv_runner_stay (a' := { a with pc := a.pc + 1 }) h hrun hrun rfl h.nub' rfl ?_ rfl
+      refine inv_runner_stay (a' := { a with pc := a.pc + 1 }) h hrun hrun rfl h.nubC rfl ?_ rfl
       exact Or.inr (Or.inl ⟨hp, Or.inr (by simp [hpc]), ⟨v, hv⟩, htmp, hslot, hd, hin, hl⟩)
     · -- dflt 5: replace
       obtain ⟨c, hc⟩ := hd
@@ -430,7 +430,7 @@ theorem inv_runner {sh sh' : Sh} {ths : Nat → Th} {t : Nat} {th' : Th} {a : Ac
       rw [hc, hv] at this
       simp only [Option.some.injEq, Prod.mk.injEq] at this
       obtain ⟨rfl, rfl⟩ := this
-      refine inv_runner_stay (a' := { a with val := none, tmp := some c, pc := a.pc + 1 }) h hrun hrun rfl h.nub' rfl ?_ rfl
+      refine inv_runner_stay (a' := { a with val := none, tmp := some c, pc := a.pc + 1 }) h hrun hrun rfl h.nubC rfl ?_ rfl
       exact Or.inr (Or.inr (Or.inl ⟨hp, by simp [hpc], rfl, ⟨c, rfl⟩, hslot, ⟨v, rfl⟩, hin, hl⟩))
   · -- dflt 6: escape
     have := hstep .escape (by rw [hp, hpc]; rfl)
@@ -438,7 +438,7 @@ theorem inv_runner {sh sh' : Sh} {ths : Nat → Th} {t : Nat} {th' : Th} {a : Ac
     rw [htmp] at this
     simp only [Option.some.injEq, Prod.mk.injEq] at this
     obtain ⟨rfl, rfl⟩ := this
-    refine inv_runner_stay (a' := { a with tmp := none, slot := some c, pc := a.pc + 1 }) h hrun hrun rfl h.nub' rfl ?_ rfl
+    refine inv_runner_stay (a' := { a with tmp := none, slot := some c, pc := a.pc + 1 }) h hrun hrun rfl h.nubC rfl ?_ rfl
     exact Or.inr (Or.inr (Or.inr (Or.inl ⟨hp, by simp [hpc], hv, rfl, ⟨c, rfl⟩, hd, hin, hl⟩)))
   · -- dflt 7: closureOk
     refine inv_closureOk h hrun hv htmp hd hin ?_ ?_ (Or.inl ⟨by rw [hslot]; simp, hl⟩)
@@ -450,7 +450,7 @@ theorem inv_runner {sh sh' : Sh} {ths : Nat → Th} {t : Nat} {th' : Th} {a : Ac
       have := hstep .borrow (by rw [hp, hpc]; rfl)
       simp only [interp, Option.some.injEq, Prod.mk.injEq] at this
       obtain ⟨rfl, rfl⟩ := this
-      refine inv_runner_stay (a' := { a with pc := a.pc + 1 }) h hrun hrun rfl h.nub' rfl ?_ rfl
+      refine inv_runner_stay (a' := { a with pc := a.pc + 1 }) h hrun hrun rfl h.nubC rfl ?_ rfl
       exact Or.inr (Or.inr (Or.inr (Or.inr (Or.inl ⟨hp, Or.inr (by simp [hpc]), ⟨hv, htmp, hslot⟩, hd, hin, hl⟩))))
     · -- noDrop 2: callF
       refine inv_callF h hrun hd hin hl ?_ (hstep .callF (by rw [hp, hpc]; rfl))
@@ -463,7 +463,7 @@ theorem inv_runner {sh sh' : Sh} {ths : Nat → Th} {t : Nat} {th' : Th} {a : Ac
     rw [hc, hv] at this
     simp only [Option.some.injEq, Prod.mk.injEq] at this
     obtain ⟨rfl, rfl⟩ := this
-    refine inv_runner_stay (a' := { a with val := none, pc := a.pc + 1 }) h hrun hrun rfl h.nub' rfl ?_ rfl
+    refine inv_runner_stay (a' := { a with val := none, pc := a.pc + 1 }) h hrun hrun rfl h.nubC rfl ?_ rfl
     refine Or.inr (Or.inr (Or.inr (Or.inr (Or.inr (Or.inr ⟨hp, by simp [hpc], ⟨rfl, htmp, hslot⟩, ⟨v, rfl⟩, hin, hl.1, ?_⟩)))))
     show sh.seedLeaks + 1 = 1
     rw [hl.2]
@@ -485,7 +485,7 @@ theorem step_inv (s : Sys) (t : Nat) (h : Inv s) : Inv (s.step t) := by
     cases hact : (ths t).act with
     | none => exact inv_idle h hact hst
     | some a =>
-      rcases h.phase' with ⟨h1, _, _, _, hq⟩ | ⟨r, ar, h1, h2, h3, hq⟩ | ⟨h1, _, _, hq, _⟩
+      rcases h.phaseC with ⟨h1, _, _, _, hq⟩ | ⟨r, ar, h1, h2, h3, hq⟩ | ⟨h1, _, _, hq, _⟩
       · obtain ⟨hpre, hregs⟩ := hq t a hact
         exact inv_pre h hact hpre hregs hst
       · by_cases hrt : t = r
